@@ -4,6 +4,9 @@
   Model: `trim`, `used` and the lookups of GIV.Model.Cache; times are integers of nanoseconds.
   `hour`, `day` below are the *statement's* numbers (one hour of timestamp granularity, one day between trims,
   five days of retention); theorem `durations` proves them equal to the constants regenerated from cache.go.
+
+  This file does not depend on the index-entry codec (GIV.Lemmas.CacheParse): the examples that need a successful
+  `Get` take the closed fact `exEntryParses` ("the example entry parses", an instance of C05's `parse_fmt`) as a hypothesis.
 -/
 import GIV.Lemmas.CacheTrim
 import GIV.Lemmas.CacheOps
@@ -153,9 +156,9 @@ theorem get_refreshes (fs : FS) (u : Int) (id : Hash) (e : Entry) (fs' : FS) (h 
       | none => rw [get_used_self, hf0] at hg; simp at hg
       | some f => exact ⟨f, rfl, used_bound _ _ _ _ hg⟩
 
-example : ∃ e fs', Cache.get exFS (10 * day) id1 = (.ok e, fs') ∧
+example (hp : exEntryParses) : ∃ e fs', Cache.get exFS (10 * day) id1 = (.ok e, fs') ∧
     ∃ f, fs'.get (fileName id1 keyA) = some f ∧ 10 * day - f.mtime < hour := by
-  obtain ⟨t, ht⟩ := exFS_stored.get (10 * day)
+  obtain ⟨t, ht⟩ := (exFS_storedP hp).get (10 * day)
   cases h : Cache.get exFS (10 * day) id1 with
   | mk r fs' => rw [h] at ht; simp only at ht; subst ht; exact ⟨_, fs', rfl, get_refreshes _ _ _ _ _ h⟩
 
@@ -168,7 +171,7 @@ example : ∃ f, (outputFile exFS (10 * day) (toyH [65])).2.get (fileName (toyH 
   cases h : (outputFile exFS (10 * day) (toyH [65])).2.get (fileName (toyH [65]) keyD) with
   | none =>
     have := outputFile_sameData exFS (10 * day) (toyH [65]) (fileName (toyH [65]) keyD)
-    rw [exFS_stored.2.1] at this
+    rw [show dataOf exFS (fileName (toyH [65]) keyD) = some [65] by simp [exFS, dataOf, FS.get_set]] at this
     simp [dataOf, h] at this
   | some f => exact ⟨f, rfl, outputFile_refreshes _ _ _ _ h⟩
 
@@ -233,9 +236,9 @@ theorem outputFile_survives (fs : FS) (u now : Int) (hn0 : 0 ≤ now) (out : Has
     have hb := outputFile_refreshes fs u out f hg
     exact trim_keeps_recent _ now hn0 _ f (by rw [← durations.2.2.2.1]; exact fileName_ne_trimFile _ _) hg (by omega)
 
-example : ∃ e fs', Cache.get exFS (10 * day) id1 = (.ok e, fs') ∧
+example (hp : exEntryParses) : ∃ e fs', Cache.get exFS (10 * day) id1 = (.ok e, fs') ∧
     (trim fs' (15 * day)).get (fileName id1 keyA) = fs'.get (fileName id1 keyA) := by
-  obtain ⟨t, ht⟩ := exFS_stored.get (10 * day)
+  obtain ⟨t, ht⟩ := (exFS_storedP hp).get (10 * day)
   cases h : Cache.get exFS (10 * day) id1 with
   | mk r fs' =>
     rw [h] at ht; simp only at ht; subst ht
@@ -290,16 +293,16 @@ theorem getFile_survives (fs : FS) (u now : Int) (hn0 : 0 ≤ now) (id : Hash) (
       rw [hidx]
       exact trim_keeps_recent _ now hn0 _ f (fileName_ne_trimTxt _ _) hidx (by omega)
 
-example : ∃ d e fs', getBytes toyH exFS (10 * day) id1 = (.ok (d, e), fs') ∧
+example (hp : exEntryParses) : ∃ d e fs', getBytes toyH exFS (10 * day) id1 = (.ok (d, e), fs') ∧
     (trim fs' (15 * day)).get (fileName id1 keyA) = fs'.get (fileName id1 keyA) := by
-  obtain ⟨t, ht⟩ := exFS_stored.getBytes (10 * day)
+  obtain ⟨t, ht⟩ := (exFS_storedP hp).getBytes (10 * day)
   cases h : getBytes toyH exFS (10 * day) id1 with
   | mk r fs' =>
     rw [h] at ht; simp only at ht; subst ht
     exact ⟨_, _, fs', rfl, (getBytes_survives toyH exFS (10 * day) (15 * day) (by decide) id1 _ _ fs' h (by decide)).1⟩
 
-example : ∃ file e fs', getFile exFS (10 * day) id1 = (.ok (file, e), fs') ∧ (trim fs' (15 * day)).get file = fs'.get file := by
-  obtain ⟨t, ht⟩ := exFS_stored.getFile (10 * day)
+example (hp : exEntryParses) : ∃ file e fs', getFile exFS (10 * day) id1 = (.ok (file, e), fs') ∧ (trim fs' (15 * day)).get file = fs'.get file := by
+  obtain ⟨t, ht⟩ := (exFS_storedP hp).getFile (10 * day)
   cases h : getFile exFS (10 * day) id1 with
   | mk r fs' =>
     rw [h] at ht; simp only at ht; subst ht
